@@ -202,7 +202,7 @@ CHECKS = {
                     "messages, elevations or radials.",
     ),
     "C02": dict(
-        kani=[dict(crate="nexrad-decode", files=["wire_layout.rs", "drd.rs", "c07.rs"], harnesses=
+        kani=[dict(crate="nexrad-decode", files=["wire_layout.rs", "drd.rs", "c02.rs"], harnesses=
             layout_h(["DrdHeader", "DataBlockId", "VolumeDataBlock", "ElevationDataBlock", "RadialDataBlock", "GenericDataBlockHeader"]) + [
             dict(name="c02_generic_block_new_len", what="GenericDataBlock::new: gate buffer length == gates x (word_size/8) for all u16 x u8"),
             dict(name="drd_marker_vol", bounded="1 block, one symbolic marker byte", what="VOL block routed to the volume slot only"),
@@ -233,11 +233,12 @@ CHECKS = {
                     "bounded (concrete structure, symbolic contents).",
     ),
     "C07": dict(
-        kani=[dict(crate="nexrad-decode", files=["c07.rs"], harnesses=[
+        kani=[dict(crate="nexrad-decode", files=["c07.rs"], contracts=False, tag="-callsites", harnesses=[
             dict(name="c07_radial_header_mapping", what="radial() == into_radial() and every reported field (numbers, angles, spacing, one-to-one status, timestamp) for all 32 header bytes"),
             dict(name="c07_radial_moment_wiring", what="every subset of the seven moments: each model moment built from its own block (distinct symbolic scale/offset), absent stays absent, both conversions agree"),
             dict(name="c07_radial_moment_bytes", bounded="2 gates", what="gate bytes carried unchanged into the model radial by both conversions"),
-            dict(name="c07_values_formula_1gate", bounded="1 gate (8-bit words)", what="sentinels 0/1, (raw-offset)/scale, scale 0 rule; decode level == model level bit for bit; all 256 raws, all finite scale/offset"),
+            dict(name="c07_values_formula_scales", bounded="1 gate; scale in {0, 2, 300, 2.8361, 1e-39, -0.5}", what="sentinels 0/1, (raw-offset)/scale, scale 0 rule; decode level == model level bit for bit; all 256 raws, all finite offsets"),
+            dict(name="c07_values_formula_1gate", bounded="1 gate (8-bit words)", tier="thorough", what="same for ALL finite scale/offset pairs"),
             dict(name="c07_values_formula_2gates", bounded="2 gates (8-bit words)", tier="thorough", what="same, two gates"),
             dict(name="c07_values_one_per_gate_16bit", bounded="2 gates (16-bit words)", what="exactly one value per gate for 16-bit moments (KNOWN FINDING on the current tree)"),
         ])],
